@@ -38,6 +38,8 @@ func c02Atoms(tier string) []c02Atom {
 		{Text: `m="foo bar"`, Col: "m", Op: "=", Lit: "foo bar"},
 		{Text: `m=*bar*`, Col: "m", Op: "=", Lit: "*bar*"},
 		{Text: `b=true`, Col: "b", Op: "=", Lit: "true"},
+		// a negative integer literal (against integer and decimal stored values)
+		{Text: `a>=-1`, Col: "a", Op: ">=", Lit: "-1", Num: true, Where: `a>=-1`},
 		{Text: `foo`, Lit: "foo"},
 		// all-column terms that read as numbers (matched against every column, numeric ones included)
 		{Text: `404`, Lit: "404"},
@@ -57,7 +59,6 @@ func c02Atoms(tier string) []c02Atom {
 		{Text: `a=2.5`, Col: "a", Op: "=", Lit: "2.5", Num: true, Where: `a=2.5`},
 		{Text: `a>=2`, Col: "a", Op: ">=", Lit: "2", Num: true, Where: `a>=2`},
 		{Text: `a<-1`, Col: "a", Op: "<", Lit: "-1", Num: true, Where: `a<-1`},
-		{Text: `a>=-1`, Col: "a", Op: ">=", Lit: "-1", Num: true, Where: `a>=-1`},
 		{Text: `a="x"`, Col: "a", Op: "=", Lit: "x"},
 		{Text: `a=X`, Col: "a", Op: "=", Lit: "X"},
 		{Text: `a=x*`, Col: "a", Op: "=", Lit: "x*"},
@@ -96,6 +97,8 @@ func c02Datasets() []c02Dataset {
 		mk("strings", []string{`"x"`, `"X"`, `"xy"`, `"2"`, ""}, []string{`"foo"`, `"foo"`, `"foo"`, `"bar"`, `"bar"`}, []string{"true", "true", "true", "true", "false"}),
 		// two numeric columns with disjoint value ranges (all-column numeric terms match in different columns of one block)
 		mk("twonum", []string{"404", "7", "404", "9", "12"}, []string{`"moved"`, `"ok"`, `"ok"`, `"moved"`, `"x"`}, []string{"3", "1500", "1500", "8", "1500"}),
+		// numbers next to numeric strings below and above them (the block's column is converted to numbers; its range index must cover them)
+		mk("numstr", []string{"2", `"1"`, "2", `"3"`, `"1"`}, []string{`"foo"`, `"bar"`, `"foo bar"`, `"Foo"`, `"baz"`}, []string{"true", "false", "true", "false", "true"}),
 		mk("punct", []string{"1", "2", "3", "2", "1", "3"}, []string{`"a.b"`, `"axb"`, `"a+b"`, `"aab"`, `"xa.b"`, `"a.bx"`}, []string{"true", "false", "true", "false", "true", "false"}),
 	}
 }
@@ -555,12 +558,22 @@ func c02Causes(model []*MEvent, lay Layout, atoms ...*c02Atom) string {
 			}
 			for _, blk := range blocks {
 				ks := map[string]bool{}
+				allStrNumeric := true
 				for _, m := range blk {
 					if vs, ok := m.Cols[c]; ok {
 						ks[kindClass(vs[0])] = true
+						if vs[0].Kind == "str" {
+							if _, err := strconv.ParseFloat(vs[0].S, 64); err != nil {
+								allStrNumeric = false
+							}
+						}
 					}
 				}
-				if len(ks) >= 2 {
+				if len(ks) == 2 && ks["num"] && ks["str"] && allStrNumeric {
+					// numbers next to strings that all read as numbers: the writer converts the whole column of the block
+					// to numbers (another code path than the consolidation to strings of a really mixed block)
+					causes["numstr-block"] = true
+				} else if len(ks) >= 2 {
 					causes["mixed-block"] = true
 				}
 				if len(ks) == 0 && anyHas {
@@ -581,7 +594,7 @@ func c02Causes(model []*MEvent, lay Layout, atoms ...*c02Atom) string {
 			}
 		}
 	}
-	for _, c := range []string{"col-absent-in-block", "mixed-block", "int-vs-decimal", "bool-column"} {
+	for _, c := range []string{"col-absent-in-block", "mixed-block", "int-vs-decimal", "bool-column", "numstr-block"} {
 		if causes[c] {
 			return c // primary cause, by priority
 		}
